@@ -28,7 +28,7 @@ func init() {
 			return 720
 		},
 		Batch: func(t string) int { return 30 },
-		Floors: []string{"comparisons", "path_verbatim_copy", "path_column_reencode", "path_row", "source_file", "source_buffer", "source_range_view", "source_multi", "source_merged", "source_dedup", "source_foreign_reversed", "source_converted",
+		Floors: []string{"comparisons", "path_verbatim_copy", "path_column_reencode", "path_row", "source_file", "source_buffer", "source_range_view", "source_multi", "source_merged", "source_dedup", "source_foreign_reversed", "source_converted", "source_merged_wrapped", "wrapped_dedup_input", "wrapped_foreign_input",
 			"dst_same_config", "dst_other_codec", "dst_other_version", "dst_other_encoding", "dst_small_pages", "dst_maxrows", "dst_bloom", "settings_checked"},
 		Rule: "case = (source row group among: file row group, buffer, row-range view, MultiRowGroup, merged (overlapping or not), dedup wrapper, converted, and a foreign RowGroup implementation whose Rows() reverses the rows; source writer config from the option matrix; " +
 			"destination config equal to the source or with one setting changed: codec, page version, default encoding, page size, MaxRowsPerRowGroup, bloom filters). File A = dst.WriteRowGroup(src); the rows of A (library reader and independent decoder) must equal src.Rows() as read before, " +
@@ -46,6 +46,11 @@ type reversedRowGroup struct {
 }
 
 func (r *reversedRowGroup) Rows() parquet.Rows { return &sliceRows{rows: r.rows, schema: r.Schema()} }
+
+// everyOtherRowGroup: a foreign RowGroup over file-backed chunks whose Rows() keep every other row.
+type everyOtherRowGroup struct{ reversedRowGroup }
+
+func (g *everyOtherRowGroup) NumRows() int64 { return int64(len(g.rows)) }
 
 type sliceRows struct {
 	rows   []parquet.Row
@@ -77,7 +82,7 @@ func runC11(c *Ctx) {
 	rows := genRows(r, te, n, genOpts{NoHuge: true, SmallLists: r.P(60)})
 	srcOpt := genOptions(r, optLimits{Leaves: leafPaths(schema), NoBloom: r.P(50)})
 	defer srcOpt.Close()
-	srcKind := []string{"file", "buffer", "range_view", "multi", "merged", "dedup", "foreign_reversed", "converted"}[c.Case%8]
+	srcKind := []string{"file", "buffer", "range_view", "multi", "merged", "dedup", "foreign_reversed", "converted", "merged_wrapped"}[c.Case%9]
 	c.D("type", te.Name)
 	c.D("rows", n)
 	c.D("source", srcKind)
@@ -191,6 +196,51 @@ func runC11(c *Ctx) {
 				return
 			}
 			src = parquet.MultiRowGroup(f.RowGroups()...)
+		case "merged_wrapped":
+			// a sorted merge of two NON-overlapping inputs, so that the planner emits them as segments: a plain
+			// file row group next to a wrapper over file-backed chunks whose Rows() differ from what the
+			// chunks hold (a foreign RowGroup keeping every other row, or the library's own duplicate-dropping merge)
+			sorting := parquet.SortingColumns(parquet.Ascending("id"))
+			half := n / 2
+			a, b := prows[:half], prows[half:]
+			dedupInner := r.Bool()
+			if dedupInner {
+				var out []parquet.Row
+				for _, row := range b {
+					out = append(out, row, row.Clone())
+				}
+				b = out
+			}
+			so := append(append([]parquet.WriterOption{}, noSplit...), parquet.SortingWriterConfig(sorting))
+			var fa, fb *parquet.File
+			if fa, err = mkFile(a, so); err != nil {
+				return
+			}
+			if fb, err = mkFile(b, so); err != nil {
+				return
+			}
+			if len(fa.RowGroups()) != 1 || len(fb.RowGroups()) != 1 {
+				err = fmt.Errorf("expected one row group per input")
+				return
+			}
+			var wrapped parquet.RowGroup
+			if dedupInner {
+				c.Obs("wrapped_dedup_input", 1)
+				if wrapped, err = parquet.MergeRowGroups(fb.RowGroups(), schema, parquet.SortingRowGroupConfig(sorting, parquet.DropDuplicatedRows(true))); err != nil {
+					return
+				}
+			} else {
+				c.Obs("wrapped_foreign_input", 1)
+				var kept []parquet.Row
+				for i, row := range b {
+					if i%2 == 0 {
+						kept = append(kept, row)
+					}
+				}
+				wrapped = &everyOtherRowGroup{reversedRowGroup{RowGroup: fb.RowGroups()[0], rows: kept}}
+			}
+			src, err = parquet.MergeRowGroups([]parquet.RowGroup{fa.RowGroups()[0], wrapped}, schema, parquet.SortingRowGroupConfig(sorting))
+			dstOpts = append(dstOpts, parquet.SortingWriterConfig(sorting))
 		case "merged", "dedup":
 			// two inputs sorted by id; merged overlaps or not
 			sorting := parquet.SortingColumns(parquet.Ascending("id"))
